@@ -1,10 +1,10 @@
 use crate::{
-    indexed_name_to_ident, quote_shader_stages, wgsl::buffer_binding_type, CreateModuleError,
+    indexed_name_to_ident, name_to_ident, quote_shader_stages, wgsl::buffer_binding_type,
+    CreateModuleError,
 };
 use proc_macro2::{Literal, Span, TokenStream};
 use quote::quote;
 use std::collections::BTreeMap;
-use syn::Ident;
 
 pub struct GroupData<'a> {
     pub bindings: Vec<GroupBinding<'a>>,
@@ -147,7 +147,7 @@ fn bind_group_layout(group_no: u32, group: &GroupData) -> TokenStream {
         .iter()
         .map(|binding| {
             let binding_name = binding.name.as_ref().unwrap();
-            let field_name = Ident::new(binding_name, Span::call_site());
+            let field_name = name_to_ident(binding_name);
             // TODO: Support more types.
             let field_type = match binding.binding_type.inner {
                 naga::TypeInner::Struct { .. }
@@ -326,7 +326,7 @@ fn bind_group(group_no: u32, group: &GroupData) -> TokenStream {
         .map(|binding| {
             let binding_index = Literal::usize_unsuffixed(binding.binding_index as usize);
             let binding_name = binding.name.as_ref().unwrap();
-            let field_name = Ident::new(binding.name.as_ref().unwrap(), Span::call_site());
+            let field_name = name_to_ident(binding.name.as_ref().unwrap());
             let resource_type = match binding.binding_type.inner {
                 naga::TypeInner::Struct { .. }
                 | naga::TypeInner::Array { .. }
